@@ -1,5 +1,6 @@
 import Proofs.SeqSteps
 import Proofs.SeqDemo
+import Proofs.SeqSoloPub
 /-! C02 — An SCT is returned only for an entry already in the published tree.
 `acks` records every acknowledgement (index, timestamp, dedup class) the model accepted. -/
 namespace C02
@@ -61,5 +62,36 @@ theorem C02_failed_round_no_ack (s : Sys) (i eid key idx ts : Nat) (rd : Round) 
 example : ∃ s, Reachable s ∧ s.acks.length = 1 := by
   obtain ⟨s, h, _, _, ha⟩ := Seq.Demo.demo_runs
   exact ⟨s, ⟨0, _, h⟩, ha⟩
+
+/-- C02 at full strength for its own quantifier (one process dying and restarting; any faults, crashes,
+    clock behaviour, duplicate and concurrent-with-round submissions): what the PUBLIC checkpoint
+    object held at the instant the acknowledgement was issued (`pubAt`, recorded by the `ack` step
+    itself) covers the acknowledged index, and the leaf there is the acknowledged entry with exactly
+    the acknowledged timestamp. With two overlapping instances the public object can regress (F3) and
+    only `C02_ack_published` / `C02_ack_stable` hold. -/
+theorem C02_ack_readable_solo {s : Sys} (r : ReachableSolo s) (ht : s.tampered = false) :
+    ∀ a ∈ s.acks, ∃ c, a.pubAt = some c ∧ ∃ l, c.leaves[a.idx]? = some l ∧ l.key = a.key ∧ l.ts = a.ts :=
+  ackPub_reachable r ht
+
+/-- … and the public checkpoint object at every later instant of such a run still covers it -/
+theorem C02_ack_stays_readable_solo {s : Sys} (r : ReachableSolo s) (ht : s.tampered = false) :
+    ∀ a ∈ s.acks, ∃ c, s.store .ckpt = some (.ck c, false) ∧
+      ∃ l, c.leaves[a.idx]? = some l ∧ l.key = a.key ∧ l.ts = a.ts :=
+  acks_readable_now r ht
+
+/-- only instance 0 acts in the demo run -/
+theorem demo_inst : ∀ e ∈ Seq.Demo.demo, e.inst = some 0 := by
+  have h : Seq.Demo.demo.all (fun e => e.inst == some 0) = true := by decide
+  intro e he
+  have := List.all_eq_true.1 h e he
+  simpa using this
+
+/-- non-vacuity: a single-process untampered run with an acknowledgement -/
+example : ∃ s, ReachableSolo s ∧ s.tampered = false ∧ s.acks.length = 1 := by
+  obtain ⟨s, h, _, _, ha⟩ := Seq.Demo.demo_runs
+  obtain ⟨s2, h2, ht, _⟩ := Seq.Demo.demo_untampered
+  have : s2 = s := by rw [h] at h2; injection h2 with h2; exact h2.symm
+  subst this
+  exact ⟨s2, (ReachableSolo.init 0).run_inst (i := 0) (fun _ _ => rfl) demo_inst h, ht, ha⟩
 
 end C02
